@@ -1778,8 +1778,13 @@ class BaseBosonicState(BaseState):
 
         rho = 0
         for i in range(self.num_weights):
+            # thewalrus expects the xxpp ordering, the bosonic data is stored as xpxp
             rho += weights[i] * twq.density_matrix(
-                mus[i], covs[i], hbar=self._hbar, normalize=False, cutoff=cutoff
+                xpxp_to_xxpp(mus[i]),
+                xpxp_to_xxpp(covs[i]),
+                hbar=self._hbar,
+                normalize=False,
+                cutoff=cutoff,
             )
         return rho
 
@@ -1899,8 +1904,9 @@ class BaseBosonicState(BaseState):
 
         prob = 0
         for i in range(self.num_weights):
+            # thewalrus expects the xxpp ordering, the bosonic data is stored as xpxp
             prob += self._weights[i] * twq.density_matrix_element(
-                self._mus[i], self._covs[i], n, n, hbar=self._hbar
+                xpxp_to_xxpp(self._mus[i]), xpxp_to_xxpp(self._covs[i]), n, n, hbar=self._hbar
             )
         return prob.real
 
